@@ -221,7 +221,9 @@ impl Shell {
         loop {
             if let Some(x) = self.jobs.get_mut(&i) {
                 if x.gid == gid {
-                    if let Ok(i_pid) = x.pids.binary_search(&pid) {
+                    // pids are stored in launch order, which is not
+                    // necessarily ascending, so search linearly.
+                    if let Some(i_pid) = x.pids.iter().position(|p| *p == pid) {
                         x.pids.remove(i_pid);
                     }
                     empty_pids = x.pids.is_empty();
